@@ -302,9 +302,9 @@ def run(ctx):
         nonlocal t0
         tm[name] = round(time.time() - t0, 1)
         t0 = time.time()
-    b1, e1 = cache_correspondence(ctx, res, stats, ctx.rng(1), ctx.n(2, 40))
+    b1, e1 = cache_correspondence(ctx, res, stats, ctx.rng(1), ctx.n(2, 20))
     tick("cache")
-    b2, e2 = force_correspondence(ctx, res, stats, ctx.rng(2), ctx.n(6, 100))
+    b2, e2 = force_correspondence(ctx, res, stats, ctx.rng(2), ctx.n(6, 60))
     replies = {}
     for ln in common.lean_driver("LikCache", "".join(b1 + b2)):
         if ln.strip():
@@ -313,9 +313,9 @@ def run(ctx):
     check_cache_replies(res, replies, e1)
     check_force_replies(res, stats, replies, e2)
     tick("force+model")
-    determinism_oracle(ctx, res, stats, ctx.rng(3), ctx.n(2, 20))
+    determinism_oracle(ctx, res, stats, ctx.rng(3), ctx.n(2, 10))
     tick("determinism")
-    prior_reuse_oracle(ctx, res, stats, ctx.rng(4), ctx.n(3, 40))
+    prior_reuse_oracle(ctx, res, stats, ctx.rng(4), ctx.n(3, 25))
     tick("reuse")
     res.sample(dict(kind="cache", keys=stats["cache_keys"], threads=[str(t) for t in THREADS]))
     res.sample(dict(kind="force", sequences=stats["force_seqs"], max_ulp=stats["force_max_ulp"]))
